@@ -365,6 +365,8 @@ WebSocketMsg WebSocket::receive()
 				buffer.remove(0, 2);
 				msg = buffer;
 			}
+			else
+				msg = ByteArray(); // the fragments of a message the close frame interrupted are not delivered
 			haveMsg = true;
 			_closed = true;
 			_socket.close();
